@@ -50,6 +50,9 @@ type runtime struct {
 	rounds      int
 	widths      []int
 	stuck       bool
+	cancelAt    int
+	started     int
+	cancel      func()
 }
 
 func pathJoin(p, seg string) string {
@@ -127,6 +130,10 @@ func resolver(idx int, f *FShape) func(graphql.FieldContext) (interface{}, error
 			ev.Pending = append(ev.Pending, "["+p.path+"]")
 		}
 		rt.events = append(rt.events, ev)
+		rt.started++
+		if rt.cancelAt > 0 && rt.started == rt.cancelAt {
+			defer rt.cancel()
+		}
 		var val any
 		var err error
 		if wf.Err != "" {
@@ -366,7 +373,9 @@ func RunReal(c *Case) (obs *Observed, err error) {
 	if err != nil {
 		return nil, err
 	}
-	rt := &runtime{sched: c.Schedule}
+	ctx, cancel := context.WithCancel(context.Background())
+	defer cancel()
+	rt := &runtime{sched: c.Schedule, cancelAt: c.CancelAt, cancel: cancel}
 	obs = &Observed{}
 	var resp *graphql.Response
 	func() {
@@ -380,7 +389,7 @@ func RunReal(c *Case) (obs *Observed, err error) {
 			}
 		}()
 		resp = graphql.Execute(&graphql.Request{
-			Context:      context.Background(),
+			Context:      ctx,
 			Document:     cc.doc,
 			Schema:       cc.schema,
 			InitialValue: &objVal{rt: rt, shape: c.Shape, w: c.World, path: ""},
